@@ -107,6 +107,22 @@ pub fn exec(toks: &[&str]) -> String {
             }
             None => "bad-op".into(),
         },
+        ["as-der", hx] => {
+            // AsResources::take_from on the extension value
+            let Some(b) = unhex(hx) else { return "bad-op".into() };
+            match bcder::Mode::Der.decode(bytes::Bytes::from(b), AsResources::take_from) {
+                Err(_) => "err".into(),
+                Ok(r) => if r.is_inherited() { "inherit".into() } else {
+                    match r.to_blocks() { Ok(c) => format!("blocks {}", show_as(&c)), Err(_) => "odd".into() } },
+            }
+        }
+        ["as-enc", what] => {
+            // AsResources::encode
+            use bcder::encode::Values;
+            let r = if *what == "I" { AsResources::inherit() } else {
+                match as_chain(what) { Some(c) => AsResources::blocks(c), None => return "bad-op".into() } };
+            hex(r.encode().to_captured(bcder::Mode::Der).as_slice())
+        }
         ["as-parse", hx] => {
             let t = String::from_utf8(unhex(hx).unwrap()).unwrap();
             match AsBlocks::from_str(&t) {
@@ -246,6 +262,30 @@ pub fn generate(ctx: &mut Ctx) {
         let op = *rng.pick(&ip_ops);
         ctx.case(&format!("ip-op {} {} {}", op, show_blocks(&f(&a)), show_blocks(&f(&b))));
         ctx.case(&format!("ip-text 4 {}", show_blocks(&f(&a))));
+    }
+    // RFC 3779 AS extension in DER: the library's encoder on canonical sets, its decoder on what an
+    // independent encoder writes (any block order, overlaps, boundary integers) and on damaged encodings
+    for a in &sets_as {
+        ctx.case(&format!("as-enc {}", show_blocks(a)));
+    }
+    ctx.case("as-enc I");
+    for _ in 0..(if thorough { 20_000 } else { 2_000 }) {
+        let k = rng.below(6) as usize;
+        let pick = |rng: &mut Rng| -> u128 { match rng.below(6) {
+            0 => rng.below(4) as u128, 1 => 127 + rng.below(3) as u128, 2 => 255 + rng.below(3) as u128,
+            3 => 65535 + rng.below(3) as u128, 4 => 4294967295 - rng.below(3) as u128, _ => (rng.next() as u32) as u128 } };
+        let blocks: Vec<(u128, u128)> = (0..k).map(|_| { let a = pick(&mut rng); let b = pick(&mut rng); if rng.chance(1, 10) { (a, b) } else { (a.min(b), a.max(b)) } }).collect();
+        let res = if rng.chance(1, 12) { crate::pki::Res::Inherit } else { crate::pki::Res::Blocks(blocks) };
+        let mut d = crate::pki::as_ext(&res).unwrap();
+        match rng.below(10) {
+            0 => { let i = rng.below(d.len() as u64) as usize; d[i] ^= 1 << rng.below(8); }
+            1 => { let i = rng.below(d.len() as u64) as usize; d.truncate(i); }
+            2 => { d.push(0); }
+            3 => { // non-minimal / oversized integers
+                   d = crate::der::seq(&[crate::der::ctx(0, true, &crate::der::seq(&[crate::der::tlv(2, &[0, 0, 5]), crate::der::tlv(2, &[0, 0xff, 0xff, 0xff, 0xff]), crate::der::tlv(2, &[1, 0, 0, 0, 0])]))]); }
+            _ => {}
+        }
+        ctx.case(&format!("as-der {}", hex(&d)));
     }
     // IPv6 text forms that std renders specially: IPv4-mapped / -compatible ranges, zero compression at either end
     for (lo, hi) in [(0xffffu128 << 32, (0xffffu128 << 32) | 0xffff_ffff), (0xffff_0a00_0000u128, 0xffff_0aff_ffff),
